@@ -877,10 +877,18 @@ theorem stripPrefix_append (m p : List Str) (hm : m ≠ [])
     have hpre : (renderKeys (k :: ks)).isPrefixOf (renderKeys (k :: ks) ++ renderRaw p) = true := by
       simp
     simp only [hpre, if_true, List.drop_left']
+    cases p with
+    | nil => rfl
+    | cons k0 p0 =>
+    have hrr : renderRaw (k0 :: p0) = '/' :: (k0 ++ renderRaw p0) := rfl
+    have : reparse (renderRaw (k0 :: p0)) = splitKeys (renderRaw (k0 :: p0)) := by
+      rw [hrr]; simp [reparse]
+    rw [this]
     unfold splitKeys
-    rw [go_render p (fun k hk => (hp k hk).2)]
-    simp only [List.nil_append, List.singleton_append, List.filter_cons, List.isEmpty_nil,
-      Bool.not_true, Bool.false_eq_true, if_false]
+    rw [go_render (k0 :: p0) (fun k hk => (hp k hk).2)]
+    have hf : ([] ++ [([] : Str)] ++ (k0 :: p0)).filter (fun k => !k.isEmpty)
+        = (k0 :: p0).filter (fun k => !k.isEmpty) := by simp
+    rw [hf]
     apply List.filter_eq_self.mpr
     intro k hk
     have := (hp k hk).1
